@@ -57,6 +57,21 @@ CHECKS = {
          'callback); virtual time makes a running thread infinitely fast relative to timers at other instants; two '
          'genuine defects of the same root cause are listed in known_findings.json',
          'DESIGN.md §3 C02', 'E3'),
+ 'C14': ('exploration',
+         'exhaustive enumeration of field alphabets and of every single-byte corruption against independent reference codecs',
+         'Every image family the library writes or parses is driven on the real element classes through a byte-array device '
+         'memory (YAML managers through a temp directory) over complete cross products of stated finite alphabets (EEPROM: '
+         'both versions x 4 channels x 3 speeds x 81 float32 trim pairs x 7 addresses; 1-wire: every single-element length '
+         '0..253 per id, ordered id pairs x lengths 0..30^2, triples, 45 header combinations; lighthouse: 16 base stations x '
+         'valid flag x float32 extremes in every slot, every subset of <=2/<=4 of 16 stations through helper and file '
+         'manager; persistent-parameter states; Poly4D/compressed/LED-timing layouts; all 128x4 deck bit-field combinations; '
+         '0..16 anchors). Corruption: every byte position of 32 EEPROM and 107/203 1-wire base images x XOR masks (8 '
+         'single-bit quick, all 255 thorough). Each case is compared with independent struct/zlib reference codecs for '
+         'layout, round-trip equality and the recomputed checksum/CRC verdict.',
+         'firmware layouts as transcribed in vf/c14_dev.py; PyYAML as independent reader/writer; ByteMem model of Memory '
+         'delivery cross-checked against the real Memory class; floats are extremes plus position-identifying values, not all '
+         'floats',
+         'DESIGN.md §3 C14', 'enumeration'),
 }
 
 ALL = ['C%02d' % i for i in range(1, 21)]
